@@ -54,6 +54,25 @@ def designed_cases(seed, tier):
         kinds = [r.choice(["E", "c2", "k2"]), r.choice(["c2", "k2", "k3", "E"])]
         out.append({"id": f"geo-{cs}", "text": text, "ast": prog.to_json(), "params": {}, "inits": K.frac_enc(inits), "goals": goals, "kinds": kinds,
                     "N": 6, "K": 30 if tier == "quick" else 50, "features": ["designed:geometric-exit", f"growth*continue={'>=1' if a * (1 - q) >= 1 else '<1'}"]})
+    # compound guards over two or three DIFFERENT finite variables, each redrawn in the body (so each needs its own saved old value):
+    # c == 0 || d == 0, c == 0 && d == 1, (c == 0 || d == 0) && e == 1, with an init-only variable in some of them
+    n2 = 5 if tier == "quick" else 60
+    for j in range(n2):
+        cs = K.harness_seed(seed, ID + "-guard2", j)
+        r = random.Random(cs)
+        p1, p2, p3 = (r.choice(["1/2", "1/3", "2/3", "1/4"]) for _ in range(3))
+        shape = r.choice(["or", "or", "and", "or-and", "or-init"])
+        guard = {"or": "c == 0 || d == 0", "and": "c == 0 && d == 0", "or-and": "(c == 0 || d == 0) && f == 0",
+                 "or-init": "(c == 0 || d == 0) && g == 1"}[shape]
+        order = r.sample(["c = Bernoulli(%s)" % p1, "d = Bernoulli(%s)" % p2, "x = x + 1"], 3)
+        extra = (["f = Bernoulli(%s)" % p3] if shape == "or-and" else [])
+        init = "c = 0\nd = 0\nx = 0\ny = 0" + ("\nf = 0" if shape == "or-and" else "") + ("\ng = Bernoulli(%s)" % p3 if shape == "or-init" else "")
+        upd_y = r.choice(["y = y + c", "y = y + d + 1", "y = 2*y + 1 {1/2} y"])
+        text = f"{init}\nwhile {guard}:\n" + "".join(f"    {l}\n" for l in order + extra + [upd_y]) + "end\n"
+        prog = parse_program(text)
+        goals = [{"x": 1}, {r.choice(["x", "y"]): r.choice([1, 2])}, {"x": 1, "c": 1}]
+        out.append({"id": f"guard2-{cs}", "text": text, "ast": prog.to_json(), "params": {}, "inits": K.frac_enc({}), "goals": goals, "kinds": ["E", "E", "E"],
+                    "N": 6, "K": 40 if tier == "quick" else 60, "features": ["designed:guard-over-several-redrawn-variables", "guard-shape:" + shape]})
     return out
 
 
@@ -76,6 +95,26 @@ def generate(seed, tier):
         cases.append({"id": f"gen-{cs}", "text": program_str(prog), "ast": prog.to_json(), "params": K.frac_enc(params),
                       "inits": K.frac_enc(inits), "goals": goals, "kinds": kinds, "N": 6 if tier == "quick" else 8,
                       "K": 30 if tier == "quick" else 50, "features": feats})
+    # guard shapes that the profile lottery produces rarely: a fixed number per run
+    want = 5 if tier == "quick" else 50
+    WANT = ("guard-two-variables-or", "guard-mixes-reassigned-and-initial-only-variable", "body-starts-with-conjunctive-if")
+    have = {f: sum(1 for c in cases if f in c["features"]) for f in WANT}
+    j = 0
+    while min(have.values()) < want and j < 6000:
+        cs = K.harness_seed(seed, ID + "-guardshape", j)
+        j += 1
+        prog, feats, meta = G.generate(cs, "guarded")
+        hit = [f for f in WANT if f in feats and have[f] < want]
+        if not hit or prog.guard == ("true",):
+            continue
+        for f in hit:
+            have[f] += 1
+        rng = random.Random(cs)
+        params, inits = G.instantiate_params(rng, meta, prog)
+        goals = G.goal_monomials(rng, program_variables(prog), max_deg=2, count=2, prefer=meta["data"] or None)
+        cases.insert(2 * sum(have.values()), {"id": f"gen-{cs}", "text": program_str(prog), "ast": prog.to_json(), "params": K.frac_enc(params),
+                                              "inits": K.frac_enc(inits), "goals": goals, "kinds": ["E" for _ in goals], "N": 6 if tier == "quick" else 8,
+                                              "K": 30 if tier == "quick" else 50, "features": feats})
     return cases
 
 
